@@ -1258,7 +1258,10 @@ class Timezone(Component):
                         if not transitions[index][4]:  # [4] is is_dst
                             dst_offset = osto - transitions[index][2]  # [2] is osto  # noqa
                             break
-            assert dst_offset is not False
+            if dst_offset is False:
+                # there is no STANDARD observance at all: take the change
+                # of this transition as the daylight saving offset
+                dst_offset = osto - osfrom
             transition_info.append((osto, dst_offset, name))
         return transition_times, transition_info
 
